@@ -19,6 +19,7 @@ import traceback
 from vlib import gen, oracle
 from vlib.core import Raw, coq, main, standard_proof_steps
 
+os.environ.setdefault("PYTHONWARNINGS", "ignore")
 PROP = "C05"
 TIMEOUT = float(os.environ.get("C05_TIMEOUT", "20"))
 
@@ -86,8 +87,11 @@ def w_preset(task):
     tree = find_tree(inputs, output, sd, preset)
     res["tree"] = _tree_obs(tree)
     res["tree_path"] = _plain_path(tree.get_path())
-    tree2 = ctg.array_contract_tree(inputs, output, sd, optimize=preset)
-    res["tree_pub"] = _tree_obs(tree2)
+    try:
+        tree2 = ctg.array_contract_tree(inputs, output, sd, optimize=preset)
+        res["tree_pub"] = _tree_obs(tree2)
+    except Exception as e:  # reported by the parent as a failed call of its own
+        res["errors"] = [("array_contract_tree(optimize=%r)" % preset, _exc_info(e))]
     return res
 
 
@@ -199,10 +203,14 @@ def w_explicit(task):
         with warnings.catch_warnings():
             warnings.simplefilter("ignore")
             opt = [tuple(s) for s in p] if kind == "linear" else list(p)
-            res["pub_path"] = _plain_path(ctg.array_contract_path(inputs, output, sd, optimize=opt, canonicalize=False,
-                                                                  cache=False))
-            t2 = ctg.array_contract_tree(inputs, output, sd, optimize=opt, canonicalize=False)
-            res["pub_tree"] = _tree_obs(t2)
+            try:
+                res["pub_path"] = _plain_path(ctg.array_contract_path(inputs, output, sd, optimize=opt,
+                                                                      canonicalize=False, cache=False))
+                t2 = ctg.array_contract_tree(inputs, output, sd, optimize=opt, canonicalize=False)
+                res["pub_tree"] = _tree_obs(t2)
+            except Exception as e:
+                res.pop("pub_path", None)
+                res["errors"] = [("array_contract_path/tree(optimize=<explicit %s path>)" % kind, _exc_info(e))]
     return res
 
 
@@ -372,13 +380,17 @@ def _worker_main(conn):
 # pool with per-task wall-clock limit and respawn
 class Pool:
     def __init__(self, nproc, timeout):
+        # the parent imports the library once so that forked (and re-spawned) workers start
+        # instantly; no cotengra function is ever CALLED in the parent
+        import cotengra  # noqa: F401
+        import cotengra.pathfinders.path_kahypar  # noqa: F401
         self.ctx = mp.get_context("fork")
         self.timeout = timeout
         self.workers = [self._spawn() for _ in range(nproc)]
 
     def _spawn(self):
         a, b = self.ctx.Pipe()
-        p = self.ctx.Process(target=_worker_main, args=(b,), daemon=True)
+        p = self.ctx.Process(target=_worker_main, args=(b,), daemon=False)
         p.start()
         b.close()
         return {"proc": p, "conn": a, "task": None, "t0": None}
@@ -585,10 +597,13 @@ class Judge:
         self.model_cases = []
         self.model_recs = []
 
-    def classify(self, err):
+    def classify(self, err, rec=None):
         """known-finding keys (precise: exception type + innermost frame + message)"""
         if not err:
             return None
+        n = len((rec or {}).get("inputs", [0, 0]))
+        if n == 1 and err["exc"] == "ValueError" and "math domain error" in err["msg"]:
+            return "single_tensor:log_of_zero_flops"
         fr = err.get("frames") or []
         inner = fr[-1][1] if fr else ""
         names = [f[1] for f in fr]
@@ -627,17 +642,32 @@ class Judge:
         """a call that raised, timed out or killed its worker"""
         ctx = self.ctx
         if "err" in res:
-            key = self.classify(res["err"])
+            key = self.classify(res["err"], rec)
             ctx.count("raised:" + res["err"]["exc"])
             ctx.fail("%s raised %s: %s" % (what, res["err"]["exc"], res["err"]["msg"]),
                      dict(rec, error=res["err"]), key=key)
         elif "timeout" in res:
             ctx.count("timeouts")
             key = confirm(rec) if confirm else None
+            if key is None and len(rec.get("inputs", [0, 0])) == 1 and (
+                    rec.get("method") in ("labels", "kahypar", "kahypar-balanced") or rec.get("which") == "divide"):
+                # PartitionTreeBuilder.build_divide: the root of a 1-tensor tree is a leaf, yet it is put in
+                # tree.childless and never leaves it
+                key = "build_divide:single_tensor_hang"
             ctx.fail("%s did not return within %.0fs (a call that does not return is not a contraction)" % (
                 what, res["timeout"]), dict(rec, timeout_s=res["timeout"]), key=key)
         else:
             ctx.fail("%s killed its worker: %s" % (what, res.get("died")), dict(rec, died=res.get("died")))
+
+
+def prefix_valid_py(n, path):
+    m = n
+    for s in path:
+        s = list(s)
+        if not s or len(set(s)) != len(s) or any(i < 0 or i >= m for i in s):
+            return False
+        m = m - len(s) + 1
+    return True
 
 
 def ssa_valid_py(n, path):
@@ -655,7 +685,7 @@ def ssa_valid_py(n, path):
 
 # ===========================================================================
 def run(ctx):
-    if not standard_proof_steps(ctx):
+    if not standard_proof_steps(ctx, targets=["Model/Processor.vo", "Proofs/ProcessorFacts.vo"]):
         return
     rng = ctx.rng
     pool = Pool(int(os.environ.get("C05_PROCS", "14")), TIMEOUT)
@@ -685,14 +715,18 @@ def _run(ctx, rng, pool, J):
     def confirm_agglom(rec):
         if rec.get("method") not in ("labels-agglom", "kahypar-agglom"):
             return None
-        opts = {k: v for k, v in (rec.get("params") or {}).items()}
-        opts.pop("random_strength", None)
-        t = dict(fn_kind="builder", which="agglom", fn="labels" if rec["method"].startswith("labels") else "kahypar",
-                 detect=True, seed=rec.get("seed", 0), opts=opts, timeout=TIMEOUT, **{k: rec[k] for k in
-                                                                                     ("inputs", "output", "size_dict")})
-        for attempt in range(6):
-            t["seed"] = rec.get("seed", 0) + attempt
-            r = pool.run([t])[0]
+        fnname = "labels" if rec["method"].startswith("labels") else "kahypar"
+        base = {k: rec[k] for k in ("inputs", "output", "size_dict")}
+        ts = []
+        for attempt in range(16):
+            if rec.get("params") is not None:
+                opts = dict(rec["params"])
+            else:   # HyperOptimizer sampled them: sample the registered space the same way
+                opts = _sample_space(random.Random(rec.get("seed", 0) + attempt), space[rec["method"]])
+            opts.pop("random_strength", None)
+            ts.append(dict(fn_kind="builder", which="agglom", fn=fnname, detect=True, seed=rec.get("seed", 0) + attempt,
+                           opts=opts, timeout=TIMEOUT, **base))
+        for r in pool.run(ts):
             if "ok" in r and "no_progress" in r["ok"]:
                 rec["confirmed_mechanism"] = r["ok"]["no_progress"]
                 return "build_agglom:no_progress_hang"
@@ -700,12 +734,15 @@ def _run(ctx, rng, pool, J):
 
     tasks, meta = [], []
 
-    def add(kind, net, what, confirm=None, **kw):
-        t = dict(fn_kind=kind, inputs=[tuple(x) for x in net[0]], output=tuple(net[1]), size_dict=dict(net[2]),
+    def add(fkind, net, what, confirm=None, **kw):
+        t = dict(fn_kind=fkind, inputs=[tuple(x) for x in net[0]], output=tuple(net[1]), size_dict=dict(net[2]),
                  seed=rng.randrange(2 ** 30), **kw)
+        if "timeout" not in kw and len(net[0]) <= 9 and fkind in ("trial", "builder", "hyper") and \
+                kw.get("optlib", "random") == "random":
+            t["timeout"] = TIMEOUT / 4 if len(net[0]) == 1 else TIMEOUT / 2
         tasks.append(t)
         rec = dict(net_rec(net), call=what, seed=t["seed"], **{k: v for k, v in kw.items() if k != "timeout"})
-        meta.append((kind, what, rec, net, confirm))
+        meta.append((fkind, what, rec, net, confirm))
 
     # ---- 0. known-finding probes (run every time) -------------------------------
     f17 = special_nets(rng)[-1]
@@ -810,6 +847,8 @@ def _run(ctx, rng, pool, J):
             J.failed_call(what, rec, res, confirm)
             continue
         o = res["ok"]
+        for sub_what, err in o.get("errors", []):
+            J.failed_call("%s: %s" % (what, sub_what), rec, {"err": err}, confirm)
         if kind in ("preset", "hyper", "rgreedy"):
             J.path(what, rec, n, o["path"])
         if kind == "rgreedy":
@@ -817,7 +856,7 @@ def _run(ctx, rng, pool, J):
         if kind in ("preset", "hyper", "trial", "rgreedy", "builder", "explicit") and "tree" in o:
             J.tree(what, rec, o["tree"])
             J.path(what + " tree.get_path()", rec, n, o["tree_path"])
-        if kind == "preset":
+        if kind == "preset" and "tree_pub" in o:
             J.tree(what + " (array_contract_tree)", rec, o["tree_pub"])
         if kind == "trial":
             J.path(what + " tree.get_ssa_path()", rec, n, o["ssa_path"], ssa=True)
@@ -930,7 +969,17 @@ def judge_explicit(ctx, J, what, rec, net, o):
         J.checker_recs.append(dict(rec, sub=s, python_oracle=oracle.path_is_valid_linear(s["k"], s["path"])))
     J.path(what + " tree.get_ssa_path()", rec, n, o["tree_ssa_path"], ssa=True)
     if "pub_path" in o:
-        J.path(what + " array_contract_path", rec, n, o["pub_path"])
+        if kind == "edge":
+            # an edge path cannot join disconnected components: the returned linear path is judged as a
+            # valid prefix (positions exist), the tree (which autocompletes) as a complete contraction
+            J.checker_cases.append(("edge path: returned linear path is a valid prefix",
+                                    "linear_path_prefix_valid %d %s" % (n, path_lit(o["pub_path"])), "true"))
+            J.checker_recs.append(dict(rec, returned_path=o["pub_path"], python_oracle=prefix_valid_py(n, o["pub_path"])))
+            if not prefix_valid_py(n, o["pub_path"]):
+                ctx.fail("%s: array_contract_path returned a path referencing positions that do not exist" % what,
+                         dict(rec, returned_path=o["pub_path"]))
+        else:
+            J.path(what + " array_contract_path", rec, n, o["pub_path"])
         J.tree(what + " array_contract_tree", rec, o["pub_tree"])
 
 
